@@ -144,6 +144,54 @@ def work(chunk):
                 rc, err, art = build(d, "out json {v = env.BADVAR};\n", envv, strict)
                 if rc not in (0, 1) or "panicked" in err:
                     bad = ("read-undecodable:crash", {"rc": rc, "stderr": err[-300:]})
+            elif kind == "read-recursive":
+                # `ucg build -r .`: files directly in the directory, one and two levels down all read the same environment
+                # in the same mode
+                name, quoted, strict = prm
+                import shutil as _sh
+                for sub in ("sub", "top.json", "top.ucg"):
+                    q = os.path.join(d, sub)
+                    if os.path.isdir(q):
+                        _sh.rmtree(q)
+                    elif os.path.exists(q):
+                        os.unlink(q)
+                os.makedirs(os.path.join(d, "sub", "deeper"))
+                rels = ["top.ucg", os.path.join("sub", "mid.ucg"), os.path.join("sub", "deeper", "low.ucg")]
+                for rel in rels:
+                    with open(os.path.join(d, rel), "w") as f:
+                        f.write("out json {v = %s};\n" % sel(name, quoted))
+                if os.path.exists(os.path.join(d, "p.ucg")):
+                    os.unlink(os.path.join(d, "p.ucg"))
+                env = {"HOME": d}
+                env.update(envv)
+                rc, out, err = core.run_ucg((["--no-strict"] if not strict else []) + ["build", "-r", "."], cwd=d, env=env)
+                err = err.decode("utf-8", "replace")
+                arts = []
+                for rel in rels:
+                    ap = os.path.join(d, rel[:-4] + ".json")
+                    arts.append(json.load(open(ap)) if os.path.exists(ap) else None)
+                want = envv.get(name)
+                for rel, a in zip(rels, arts):
+                    depth = rel.count(os.sep)
+                    if want is not None:
+                        if rc != 0 or not isinstance(a, dict) or a.get("v") != want:
+                            bad = ("read-recursive:set:depth-%d:%s" % (depth, "value-altered" if rc == 0 else "fails"), {"rc": rc, "artifact": a, "stderr": err[-300:]})
+                    elif strict:
+                        if rc == 0 or a is not None:
+                            bad = ("read-recursive:unset-strict:depth-%d:%s" % (depth, "artifact-written" if a is not None else "exit-0"), {"rc": rc, "artifact": a, "stderr": err[-300:]})
+                        elif name not in err:
+                            bad = ("read-recursive:unset-strict:diagnostic-does-not-name-variable", {"stderr": err[-300:]})
+                        elif NONCE in err:
+                            bad = ("read-recursive:unset-strict:diagnostic-discloses-other-variables", {"stderr": err[-300:]})
+                    else:
+                        if rc != 0 or not isinstance(a, dict) or "v" not in a or a["v"] is not None:
+                            bad = ("read-recursive:unset-nostrict:depth-%d:not-null" % depth, {"rc": rc, "artifact": a, "stderr": err[-300:]})
+                    if bad:
+                        break
+                _sh.rmtree(os.path.join(d, "sub"))
+                for q in ("top.ucg", "top.json"):
+                    if os.path.exists(os.path.join(d, q)):
+                        os.unlink(os.path.join(d, q))
             elif kind == "read-two":
                 n1, q1, n2, q2, strict = prm
                 rc, err, art = build(d, "let a = %s;\nlet b = %s;\nout json {a = a, b = b};\n" % (sel(n1, q1), sel(n2, q2)), envv, strict)
@@ -246,6 +294,11 @@ def cases(thorough):
             for quoted in (False, True):
                 for strict in (True, False):
                     yield ("read-from", {"A": "setA", "X1": "other"}, (place, name, quoted, strict))
+    # (3b') the recursive directory walk: the same reads from files at depth 0, 1 and 2 of `ucg build -r .`
+    for name in ("A", "ZZ_UNSET"):
+        for quoted in (False, True):
+            for strict in (True, False):
+                yield ("read-recursive", {"A": "setA", "X1": "other"}, (name, quoted, strict))
     # (3c) two reads in one file: what the first read leaves behind must not matter for the second
     names = ["A", "X1", "map", "ZZ_UNSET"]
     for n1, n2 in itertools.product(names, repeat=2):
